@@ -467,7 +467,7 @@ fn label(c: &Case) -> &'static str {
 
 pub fn gen_cases(seed: u64, tier: Tier) -> Vec<Case> {
     let mut cases = vec![];
-    let fills = tier.pick(8usize, 32);
+    let fills = tier.pick(8usize, 64);
     let maxlen = 1100usize;
     let flip_lens = [0usize, 1, 15, 16, 17, 63, 64, 65, 127, 128, 129, 1100];
     for len in 0..=maxlen {
@@ -548,7 +548,7 @@ pub fn gen_cases(seed: u64, tier: Tier) -> Vec<Case> {
         }
     }
     // core functions
-    let ncore = tier.pick(20_000usize, 200_000);
+    let ncore = tier.pick(20_000usize, 1_000_000);
     let mut f = Fill::new(seed, "C07:core");
     for i in 0..ncore {
         let cls = i % 7;
@@ -561,7 +561,7 @@ pub fn gen_cases(seed: u64, tier: Tier) -> Vec<Case> {
             cases.push(Case::HChaCha { input: Hex(input), key: Hex(key), consts });
         }
     }
-    cases.extend(poly_adversarial(seed, tier.pick(30_000, 400_000)));
+    cases.extend(poly_adversarial(seed, tier.pick(30_000, 1_500_000)));
     cases
 }
 
